@@ -772,6 +772,7 @@ def _check_value_to_raw(run, repo, world, mod):
     run.ob("R-MEMW-RAW", Q + "#int-required", okint,
            "a non-int must be refused before the integer encoding",
            where(mod, fn))
+    _check_fixed_scale(run, world, mod)
     # ---- strings ------------------------------------------------------------
     sv = world.cls(LOC + ".StringValue")
     fn = sv.methods["value_to_raw"][1]
@@ -919,3 +920,116 @@ def _writability_by_member(world, folder, wloop):
             return None
         out[mname] = (refused, unl)
     return out
+
+
+def _check_fixed_scale(run, world, mod):
+    """FixedScaleNumericValue.value_to_raw: the raw number is value divided
+    by the scaling factor, and a value that is not a whole number of steps
+    is refused (ValueError) - otherwise another number than the one asked
+    for is written.  Decided on the path summaries, with the quotient and
+    the remainder recognised however they are spelt (divmod, // and %)."""
+    from .. import paths
+    fs = world.cls(LOC + ".FixedScaleNumericValue")
+    if fs is None or "value_to_raw" not in fs.methods:
+        raise AnalysisError("FixedScaleNumericValue.value_to_raw vanished")
+    fn = fs.methods["value_to_raw"][1]
+    Q = LOC + ".FixedScaleNumericValue.value_to_raw"
+    v = fn.args.args[1].arg
+    S = "cls.scaling_factor"
+    defs = {}
+    for st in ast.walk(fn):
+        if isinstance(st, ast.Assign) and len(st.targets) == 1:
+            t, val = st.targets[0], st.value
+            if isinstance(t, ast.Tuple) and len(t.elts) == 2 and all(
+                    isinstance(e, ast.Name) for e in t.elts) and \
+                    isinstance(val, ast.Call) and unparse(val.func) == \
+                    "divmod" and [unparse(a) for a in val.args] == [v, S]:
+                defs[t.elts[0].id] = "QUOT"
+                defs[t.elts[1].id] = "REM"
+            elif isinstance(t, ast.Name):
+                defs[t.id] = val
+
+    def canon(e, depth=0):
+        if depth > 6:
+            return unparse(e)
+        if isinstance(e, ast.Name) and e.id in defs:
+            d = defs[e.id]
+            return d if isinstance(d, str) else canon(d, depth + 1)
+        if isinstance(e, ast.BinOp) and unparse(e.left) == v and \
+                unparse(e.right) == S:
+            if isinstance(e.op, ast.Mod):
+                return "REM"
+            if isinstance(e.op, ast.FloorDiv):
+                return "QUOT"
+        if isinstance(e, ast.Subscript) and isinstance(
+                e.value, ast.Call) and unparse(e.value) == \
+                "divmod(%s, %s)" % (v, S) and isinstance(
+                    e.slice, ast.Constant):
+            return {0: "QUOT", 1: "REM"}.get(e.slice.value, unparse(e))
+        if isinstance(e, ast.Call) and unparse(e.func) == "int" and len(
+                e.args) == 1 and not e.keywords:
+            c_ = canon(e.args[0], depth + 1)
+            return "QUOT" if c_ == "QUOT" else "int(%s)" % c_
+        return unparse(e)
+
+    def rem_zero(conds):
+        """the path's conditions say the remainder is zero"""
+        for (t, b) in conds:
+            if canon(t) == "REM" and b is False:
+                return True
+            if isinstance(t, ast.UnaryOp) and isinstance(t.op, ast.Not) \
+                    and canon(t.operand) == "REM" and b is True:
+                return True
+            if isinstance(t, ast.Compare) and len(t.ops) == 1:
+                a, c_ = canon(t.left), canon(t.comparators[0])
+                if {a, c_} == {"REM", "0"}:
+                    if isinstance(t.ops[0], ast.Eq) and b is True:
+                        return True
+                    if isinstance(t.ops[0], ast.NotEq) and b is False:
+                        return True
+        return False
+    try:
+        ps = paths.summaries(fn)
+    except paths.Unsupported as ex:
+        raise AnalysisError("%s: %s" % (Q, ex))
+    conv = []
+    for p_ in ps:
+        if p_.kind == "return" and isinstance(p_.expr, ast.Call) and \
+                unparse(p_.expr.func) == "super().value_to_raw" and len(
+                    p_.expr.args) == 1:
+            conv.append((canon(p_.expr.args[0]), p_))
+    def is_str_path(p_):
+        for (t, b) in p_.conds:
+            neg = False
+            while isinstance(t, ast.UnaryOp) and isinstance(t.op, ast.Not):
+                t = t.operand
+                neg = not neg
+            if unparse(t) == "isinstance(%s, str)" % v:
+                return b != neg
+        return None
+    num = [(a, p_) for (a, p_) in conv if is_str_path(p_) is False]
+    other = [(a, p_) for (a, p_) in conv if is_str_path(p_) is None]
+    if not num or other:
+        raise AnalysisError(
+            "%s: the paths to super().value_to_raw are not split by "
+            "isinstance(%s, str); the form is not one the rule can read"
+            % (Q, v))
+    bad = None
+    for (a, p_) in num:
+        if a != "QUOT":
+            bad = "the number converted is `%s`, not value // " \
+                "scaling_factor" % a
+        elif not rem_zero(p_.conds):
+            bad = "a value that is not a multiple of the scaling factor " \
+                "reaches the conversion (no test of the remainder on the " \
+                "path): a different number than the one given is written"
+    refuse = any(p_.kind == "raise" and paths.exc_name(p_.expr) ==
+                 "ValueError" and not rem_zero(p_.conds) and any(
+                     "REM" in (canon(t),) or any(
+                         canon(x) == "REM" for x in ast.walk(t)
+                         if isinstance(x, ast.expr))
+                     for (t, b) in p_.conds) for p_ in ps)
+    if bad is None and not refuse:
+        bad = "no ValueError for a non-zero remainder"
+    run.ob("R-MEMW-RAW", Q + "#whole-steps-only", bad is None,
+           "fixed-scale conversion: %s" % bad, where(mod, fn))
